@@ -621,6 +621,10 @@ M('C08', 'dispatch-factory-gets-root-class', TY, '    def __call__(cls, packet=N
   '    @staticmethod\n    def _makeobj(cls):\n        obj = object.__new__(cls)\n        obj.__init__()\n        return obj\n\n    def __call__(cls, packet=None):  # NOQA\n', 'C08.g', more=[(TY, '            obj = _makeobj(ncls)\n', '            obj = MetaDispatchable._makeobj(rcls)\n'), (TY, '            obj = _makeobj(cls)\n', '            obj = MetaDispatchable._makeobj(cls)\n')])
 M('C08', 'skesk-remainder-minus-1', PK, '        ctend = self.header.length - len(self.s2k)\n',
   '        ctend = self.header.length - len(self.s2k) - 1\n', 'C08.d')
+M('C08', 'sigv4-tuple-reads-swapped', PK, '        self.sigtype = packet[0]\n        del packet[0]\n\n        self.pubalg = packet[0]\n        del packet[0]\n\n        self.halg = packet[0]\n        del packet[0]\n\n        self.subpackets.parse(packet)\n\n        self.hash2 = packet[:2]\n        del packet[:2]\n\n        self.signature.parse(packet)\n',
+  '        sigtype, halg, pubalg = packet[0], packet[1], packet[2]\n        del packet[:3]\n        self.sigtype = sigtype\n        self.pubalg = pubalg\n        self.halg = halg\n\n        sp = self.subpackets\n        sp.parse(packet)\n\n        left16 = packet[:2]\n        del packet[:2]\n        self.hash2 = left16\n\n        self.signature.parse(packet)\n', 'C08.c')
+M('C08', 'pubkey-fixed-part-sum-5', PK, '        self.created = packet[:4]\n        del packet[:4]\n\n        self.pkalg = packet[0]\n        del packet[0]\n\n        # bound keymaterial to the remaining length of the packet\n        pend = self.header.length - 6\n        self.keymaterial.parse(packet[:pend])\n        del packet[:pend]\n',
+  '        self.created = packet[:4]\n        self.pkalg = packet[4]\n        del packet[:5]\n\n        fixed = 4 + 1\n        body = packet[:self.header.length - fixed]\n        self.keymaterial.parse(body)\n        del packet[:self.header.length - fixed]\n', 'C08.d')
 M('C08', 'elg-alias-guard-falls-through', FL, '        if not self.s2k:\n            self.x = MPI(packet)\n\n            if self.s2k.usage == 0:\n                self.chksum = packet[:2]\n                del packet[:2]\n\n        else:\n            self.encbytes = packet\n\n    def decrypt_keyblob(self, passphrase):\n        kb = super(ElGPriv, self).decrypt_keyblob(passphrase)',
   '        if self.s2k:\n            self.encbytes = packet\n\n        else:\n            self.x = MPI(packet)\n\n        if self.s2k.usage in (0, 255):\n            cks = packet[:2]\n            del packet[:2]\n            self.chksum = cks\n\n    def decrypt_keyblob(self, passphrase):\n        kb = super(ElGPriv, self).decrypt_keyblob(passphrase)', 'C08.b')
 M('C08', 'literal-append-len-chars', PK, '        _bytes += bytearray([len(filename)])\n        _bytes += filename',
@@ -753,6 +757,12 @@ T('C08', 'twin-pkesk-pkalg-get', PK, '        ct = _c.get(self._pkalg, None)\n  
   '        ctcls = _c.get(self._pkalg)\n        if ctcls is None:\n            self.ct = None\n\n        else:\n            self.ct = ctcls()\n', more=[(PK, "        _bytes += self.ct.__bytearray__() if self.ct is not None else b'\\x00' * (self.header.length - 10)\n", "        if self.ct is not None:\n            _bytes += self.ct.__bytearray__()\n\n        else:\n            _bytes += b'\\x00' * (self.header.length - 10)\n")])
 T('C08', 'twin-hashed-area-peek-spelling', FL, '        hl = self.bytes_to_int(packet[:2])\n        hashed_raw = packet[:2 + hl]\n        del packet[:2]\n',
   '        count_octets = packet[:2]\n        hl = self.bytes_to_int(count_octets)\n        area_end = hl + 2\n        hashed_raw = packet[:area_end]\n        del packet[:2]\n')
+T('C08', 'twin-sigv4-fixed-part-tuple', PK, '        self.sigtype = packet[0]\n        del packet[0]\n\n        self.pubalg = packet[0]\n        del packet[0]\n\n        self.halg = packet[0]\n        del packet[0]\n\n        self.subpackets.parse(packet)\n\n        self.hash2 = packet[:2]\n        del packet[:2]\n\n        self.signature.parse(packet)\n',
+  '        sigtype, pubalg, halg = packet[0], packet[1], packet[2]\n        del packet[:3]\n        self.sigtype = sigtype\n        self.pubalg = pubalg\n        self.halg = halg\n\n        sp = self.subpackets\n        sp.parse(packet)\n\n        left16 = packet[:2]\n        del packet[:2]\n        self.hash2 = left16\n\n        self.signature.parse(packet)\n')
+T('C08', 'twin-pubkey-fixed-part-local-body', PK, '        self.created = packet[:4]\n        del packet[:4]\n\n        self.pkalg = packet[0]\n        del packet[0]\n\n        # bound keymaterial to the remaining length of the packet\n        pend = self.header.length - 6\n        self.keymaterial.parse(packet[:pend])\n        del packet[:pend]\n',
+  '        self.created = packet[:4]\n        self.pkalg = packet[4]\n        del packet[:5]\n\n        fixed = 1 + 4 + 1\n        body = packet[:self.header.length - fixed]\n        self.keymaterial.parse(body)\n        del packet[:self.header.length - fixed]\n')
+T('C08', 'twin-pubkey-writer-one-expression', PK, '        _bytes += self.int_to_bytes(calendar.timegm(self.created.utctimetuple()), 4)\n        _bytes += self.int_to_bytes(self.pkalg)\n        _bytes += self.keymaterial.__bytearray__()\n        return _bytes\n\n    def __copy__(self):\n        pk = self.__class__()',
+  '        stamp = calendar.timegm(self.created.utctimetuple())\n        return _bytes + self.int_to_bytes(stamp, 4) + bytearray([self.pkalg]) + self.keymaterial.__bytearray__()\n\n    def __copy__(self):\n        pk = self.__class__()')
 T('C08', 'twin-signer-hex-method', PK, "        self._signer = binascii.hexlify(val).upper().decode('latin-1')",
   '        self._signer = val.hex().upper()')
 T('C08', 'twin-signer-hex-fromhex', PK, "        self._signer = binascii.hexlify(val).upper().decode('latin-1')",
